@@ -4,7 +4,7 @@ from vlib import *
 from checks.subs_common import take
 
 KINDS_ALL = [["HEL", "F", "none"], ["OPNI", "F", "none"], ["OPNR", "F", "none"], ["MSG", "F", "GetEndpoints"], ["MSG", "F", "Read"],
-             ["CLO", "F", "none"], ["MSG", "C", "none"], ["MSG", "A", "none"]]
+             ["CLO", "F", "none"], ["MSG", "C", "none"], ["MSG", "A", "none"], ["MSGS", "F", "GetEndpoints"]]
 
 
 def strip(s):
